@@ -537,7 +537,14 @@ def run_case(chk, engine, detector, su, label, loc_names, oracle_fn=None, confir
                 fallback_native(chk, detector, su, r, label, role, oracle_fn, meta, base)
             continue
         if any(loc_vars_in(c, loc_names) for c in r.pc):
+            # the byte offsets of the nodes are free symbols of the encoding: a path that branches on them is not decided by the solver
+            # (the parser relates the offsets of nested nodes); the real code decides it on the printed file of this path
             res.loc_dependent = True
+            chk.undecide('%s [%s]: the path branches on byte offsets, which the encoding leaves free; decided by the real code on the printed file' % (detector, label))
+            chk.extra_lists.setdefault('offset_dependent_paths', []).append('%s: %s' % (detector, label))
+            if not no_fallback:
+                fallback_native(chk, detector, su, r, label, role, oracle_fn, meta, base, drop=loc_names)
+            continue
         s = z3.Solver()
         s.add(*base)
         s.add(*r.pc)
@@ -652,10 +659,11 @@ def label_key(label):
     return label.split(' @ ')[0].replace(' ', '')[:60]
 
 
-def fallback_native(chk, detector, su, r, label, role, oracle_fn, meta=None, base=()):
-    """DESIGN 4.4: a path the engine cannot encode is still tested on the real code (never an alarm by itself)"""
+def fallback_native(chk, detector, su, r, label, role, oracle_fn, meta=None, base=(), drop=None):
+    """DESIGN 4.4: a path the engine cannot encode is still tested on the real code (never an alarm by itself).
+    `drop`: names of symbols whose constraints are left out (byte offsets: the printed file has its own)"""
     try:
-        s = z3.Solver(); s.add(*base); s.add(*r.pc)
+        s = z3.Solver(); s.add(*base); s.add(*[c for c in r.pc if not (drop and loc_vars_in(c, drop))])
         if s.check() != z3.sat:
             return
         mdl = s.model()
